@@ -84,7 +84,9 @@ func (v *Vue) Funcs(funcMap FuncMap) *Vue {
 // RenderNodes evaluates and renders HTML nodes with the given data.
 // This is the core rendering function used by all public render methods.
 func (v *Vue) RenderNodes(w io.Writer, nodes []*html.Node, data any) error {
-	dataMap := toMapData(data)
+	// The root scope is written to during evaluation (<template :x="...">, plain template
+	// attributes): work on a copy, the caller's map is left untouched.
+	dataMap := mergeFrontMatter(toMapData(data), nil)
 
 	ctx := NewVueContext("", &VueContextOptions{
 		Stack:      NewStackWithData(dataMap, data),
